@@ -12,9 +12,11 @@ judged against the same program built by the Go toolchain.
 """
 import hashlib
 import os
+import re
 
 from vlib.common import *
 from vlib import native
+from vlib import c05_grow as G
 
 H = os.path.join(VERIF, "harness", "c05")
 RT_FILES = ["z_slice.go", "z_string.go", "utf8.go", "errors.go", "z_error.go", "stubs.go", "type.go", "z_face.go",
@@ -505,11 +507,12 @@ def run(ctx, args):
     rng = ctx.rng
     st = lean_check(ctx, ["LlgoVerif.Props.C05"], ["LlgoVerif/Props/C05.lean"],
                     extra_files=["LlgoVerif/Model/Slice.lean", "LlgoVerif/Spec/Slice.lean", "LlgoVerif/Lemmas/Slice.lean",
-                                 "LlgoVerif/Model/Utf8.lean", "Driver/C05.lean"],
+                                 "LlgoVerif/Model/Utf8.lean", "LlgoVerif/Model/Slice64.lean", "LlgoVerif/Model/StrHeap.lean",
+                                 "LlgoVerif/Lemmas/Slice64.lean", "LlgoVerif/Lemmas/StrHeap.lean", "Driver/C05.lean"],
                     leanchecker=not quick)
     modeld = build_driver(ctx, "modeld_c05")
     harness = native.make_native(ctx, RT_FILES,
-                                 {"zz_support.go": native.RT_SUPPORT, "zz_access.go": open(os.path.join(H, "rt_access.go.txt")).read()},
+                                 {"zz_support.go": G.rt_support(), "zz_access.go": open(os.path.join(H, "rt_access.go.txt")).read()},
                                  {"main.go": open(os.path.join(H, "main.go.txt")).read()})
     ctx.log("built: Lean modules, modeld_c05, native copy of the runtime")
 
@@ -555,6 +558,15 @@ def run(ctx, args):
 
     res = process(ctx, harness, modeld, cfg_line, scripts, string_lines, nsc_lines, zfix, mfix)
     mismatches, spec_fail, stats, nontrivial, samples, evals = res
+
+    # ---- machine-integer layer (Model/Slice64.lean) and heap-aware strings / C strings (Model/StrHeap.lean)
+    g_mism, g_fail, g_stats, g_nontrivial, g_samples, g_evals, lc = process_grow(ctx, harness, modeld, rng, quick)
+    mismatches += g_mism
+    spec_fail += g_fail
+    stats.update(g_stats)
+    nontrivial |= g_nontrivial
+    samples += g_samples
+    evals += g_evals
 
     # ---- exhaustive sweeps of encoderune / decoderune
     sw = sweep_lines(ctx.tier)
@@ -625,15 +637,21 @@ def run(ctx, args):
         "Go reference semantics: Python arrays+slices (checks/c05.py GoRef; capacity growth read from the implementation) and Go's own string "
         "operations / unicode/utf8 evaluated inside the harness by the Go toolchain",
         "clite stand-in: Memcpy copies like memmove and counts overlapping calls (what glibc happens to do); the model calls such a call UB",
-        "model domain: no int64 wrap-around (sizes that fit a real process); capacity chosen on growth is read from the real code",
+        "integer model: Model/Slice.lean uses mathematical integers; Model/Slice64.lean renders nextslicecap / GrowSlice / SliceAppend on int64+uintptr "
+        "and is proved equal to it for new lengths <= 2^62 (growSlice64_eq_model, sliceAppend64_eq_model); MakeSlice's guards are proved exact on all "
+        "of int64 (makeSlice_exact); the int64 functions are run against the real ones on boundary + random int64 operands (nsc64 mk64 grow64 app64)",
+        "allocator stand-in of the native harness records requested sizes and does not execute requests above 2^26 bytes (answer `accept alloc=N`): "
+        "GrowSlice has no maxAlloc guard, so what a process does with a request it cannot satisfy is not observed",
+        "heap-aware string layer (Model/StrHeap.lean): one fresh heap per operation in the correspondence; aliasing is observed as pointer-in-range tests",
     ]
-    ctx.assumptions += ["lengths/capacities/indices inside int64 without intermediate overflow (the model uses mathematical integers)",
-                        "element size is a non-negative compile-time constant (SizeOf)"]
+    ctx.assumptions += ["byte sizes of existing capacity windows and of appended values are at most 2^60 (GrowLegit) in the int64 theorems",
+                        "element size is a non-negative compile-time constant (SizeOf)",
+                        "address 0 is never allocated (cstr_roundtrip: 0 < Mem.next)"]
     cov = {"evaluations": evals, "distinct_nontrivial": len(nontrivial),
            "rule": "one protocol line (or one swept rune / byte string) per evaluation; non-trivial = slice op on a live register or string op with a non-empty operand; distinct by (script prefix hash, line) for slices and by line text for strings",
            "input_distribution": stats, "spec_failures_on_real_code": spec_fail,
            "correspondence_mismatches": len(mismatches),
-           "tree_configuration": {"zero_size_append_repaired": zfix, "append_uses_memmove": mfix}}
+           "tree_configuration": {"zero_size_append_repaired": zfix, "append_uses_memmove": mfix, "growslice_tests_wrapped_length": lc}}
     cov.update(e2e_cov)
     return ctx.finish("proof", cov)
 
@@ -768,6 +786,80 @@ def process(ctx, harness, modeld, cfg_line, scripts, string_lines, nsc_lines, zf
     else:
         ctx.coverage.setdefault("nextslicecap_tied", True)
     return mismatches, spec_fail, stats, nontrivial, samples, len(lines_real)
+
+
+def process_grow(ctx, harness, modeld, rng, quick, compare_model=True):
+    """the machine-integer lines (nsc64 mk64 grow64 app64) and the heap-aware string / C-string lines: real code, model,
+    independent judgement (vlib/c05_grow.py)."""
+    # which GrowSlice does the tree have?  (this line is also the replay of growSlice64_len_overflow_counterexample)
+    pr, _, _ = run_lines([harness], [G.WITNESS_LENOVF])
+    lc = bool(pr) and pr[0] == "panic"
+    ctx.log("working tree: GrowSlice %s" % ("panics when len+num is not an int (repaired)" if lc else "does not test the wrapped new length (finding 4): `%s` -> %s" % (G.WITNESS_LENOVF, pr[0] if pr else "?")))
+    int_lines = G.gen_nsc64(rng, 400 if quick else 20000) + G.gen_mk64(rng, 300 if quick else 20000) + G.gen_grow64(rng, 1500 if quick else 60000)
+    heap_lines = G.FIXED_HEAP_LINES + [G.gen_heap_line(rng, rbytes) for _ in range(3000 if quick else 100000)]
+    lines = int_lines + heap_lines
+    real, rc, err = run_lines([harness], lines)
+    if len(real) != len(lines):
+        culprit = lines[min(len(real), len(lines) - 1)]
+        ctx.report("crash:" + culprit, "the runtime functions crashed the native interpreter (rc=%s) while executing `%s`" % (rc, culprit),
+                   {"failing_line": culprit, "stderr_tail": err[-1500:]})
+        return [], 1, {"crash": 1}, set(), [], len(real), lc
+    model = None
+    if compare_model:
+        model, _, err2 = run_lines([modeld], ["cfg64 %d" % int(lc)] + lines)
+        if len(model) != len(lines) + 1:
+            raise RuntimeError("modeld_c05 died after %d of %d lines: %s" % (len(model), len(lines) + 1, err2[-2000:]))
+        model = model[1:]
+    stats, nontrivial, mismatches, samples = {}, set(), [], []
+    fails = {}
+    growth_mismatch = 0
+    strip_policy = lambda t: re.sub(r" (cap|alloc)=\d+", "", t)
+    for idx, (l, out) in enumerate(zip(lines, real)):
+        op = l.split()[0]
+        stats[op] = stats.get(op, 0) + 1
+        for tag in ("panic", "accept"):
+            if out.startswith(tag):
+                stats[op + ":" + tag] = stats.get(op + ":" + tag, 0) + 1
+        if " sh=0" in out:
+            stats[op + ":grew"] = stats.get(op + ":grew", 0) + 1
+        nontrivial.add(l)
+        verdict, detail = (G.judge_int if idx < len(int_lines) else G.judge_heap)(l, out)
+        if verdict == "harness":
+            raise RuntimeError("generator/harness disagreement (not a finding): " + detail)
+        if verdict:
+            fails.setdefault(verdict, []).append((l, out, detail))
+        if model is not None and out != model[idx]:
+            grown = lambda t: t.startswith("accept") or " sh=0" in t
+            mo = model[idx]
+            if op == "nsc64" or (op in ("grow64", "app64") and grown(out) and grown(mo) and
+                                 (out.startswith("accept") or mo.startswith("accept") or strip_policy(out) == strip_policy(mo))):
+                growth_mismatch += 1     # Go does not fix the growth policy: noted, judged above against `cap >= len`
+            else:
+                mismatches.append(("grow", l, out, mo, None))
+        if len(samples) < 4 and op in ("cstr", "app64", "hs2b", "mk64") and len(l) > 24 and out.startswith("ok"):
+            samples.append({"line": l, "real": out, "model": model[idx] if model is not None else None})
+    spec_fail = sum(len(v) for v in fails.values())
+    for verdict in sorted(fails):
+        lst = sorted(fails[verdict], key=lambda x: (len(x[0]), x[0]))
+        l, out, detail = lst[0]
+        if verdict == "len-overflow":
+            if any(x[0] == G.WITNESS_LENOVF for x in lst):
+                l, out, detail = [x for x in lst if x[0] == G.WITNESS_LENOVF][0]
+            ctx.report(G.KEY_LENOVF, "%s — %s" % (l, detail), {"line": l, "real": out, "go_semantics": detail, "failing_lines_of_this_class": len(lst),
+                                                              "other_failing_lines": [x[0] for x in lst[1:8]],
+                                                              "lean": "growSlice64_len_overflow_counterexample"})
+        else:
+            ctx.report("%s:%s" % (verdict, l), "%s — %s (%d failing lines of this class; shortest)" % (l, detail, len(lst)),
+                       {"line": l, "real": out, "go_semantics": detail, "class": verdict, "failing_lines_of_this_class": len(lst),
+                        "other_failing_lines": [x[0] for x in lst[1:8]]})
+    if growth_mismatch:
+        ctx.log("note: the working tree's growth policy differs from the model's nextslicecap64 on %d int64 inputs (not fixed by Go; "
+                "`cap >= len`, representability and the allocated size were judged on every line)" % growth_mismatch)
+        ctx.coverage["nextslicecap64_tied"] = False
+    else:
+        ctx.coverage.setdefault("nextslicecap64_tied", True)
+    stats["grow_spec_failures"] = spec_fail
+    return mismatches, spec_fail, stats, nontrivial, samples, len(lines), lc
 
 
 def judge_script(harness, script):
